@@ -4,6 +4,7 @@
 (*   reset                                      a new history starts on an empty location             *)
 (*   run   (v, files: path -> [sha, mtime])     snapshot of the location after running version v      *)
 (*         failed: TRUE when the run ended with an error (a version whose sources typeshare rejects)  *)
+(*   touch (files)                              Writer!Touch: placeholder files put into the empty location before the first run *)
 (* Layer P (Writer!Idempotent, Writer!Fresh, Writer!FailedRunTouchesNothing) judges every run event.  *)
 EXTENDS TLC, Json, IOUtils, Sequences, Naturals
 Rec == ndJsonDeserialize(IOEnv.TRACE)
@@ -23,7 +24,7 @@ Next == /\ i <= Len(Rec)
         /\ LET e == Rec[i] IN
              /\ bad' = IF Ok(e) THEN bad ELSE Append(bad, i)
              /\ refs' = IF e.ev = "ref" THEN [v \in (DOMAIN refs) \cup {e.v} |-> IF v = e.v THEN e.files ELSE refs[v]] ELSE refs
-             /\ prev' = IF e.ev = "run" THEN e.files ELSE IF e.ev = "reset" THEN NoFiles ELSE prev
+             /\ prev' = IF e.ev \in {"run", "touch"} THEN e.files ELSE IF e.ev = "reset" THEN NoFiles ELSE prev
              /\ prevv' = IF e.ev = "run" THEN (IF e.failed THEN prevv ELSE e.v) ELSE IF e.ev = "reset" THEN "none" ELSE prevv
         /\ i' = i + 1
 Report == (i = Len(Rec) + 1) => PrintT(<<"INFO", "bad", ToJson(bad)>>)
